@@ -889,7 +889,8 @@ func (w *World) connect(cl *cli, o *OpRec) {
 		p.WillQoS = wl.QoS
 		p.WillRetain = wl.Retain
 		if ver == mqttc.V5 {
-			p.WillProps = &mqttc.Props{WillDelay: wl.DelayS, MessageExpiry: wl.ExpiryS, ContentType: wl.ContentType, User: wl.User}
+			p.WillProps = &mqttc.Props{WillDelay: wl.DelayS, MessageExpiry: wl.ExpiryS, ContentType: wl.ContentType, User: wl.User,
+				ResponseTopic: wl.RespTopic, CorrelationData: wl.Corr, HasCorrelationData: wl.Corr != nil, PayloadFormat: wl.PFmt}
 		}
 	}
 	o.Sent = p
